@@ -1220,6 +1220,86 @@ def build_std_op(which, reg, gen_ty):
     raise AssertionError(which)
 
 
+# ------------------------------------------------------------------------------------------------ respelled rows
+# Type equality in hugr-py is coarser than the wire format: a unit sum `UnitSum(n)` and the general sum of n empty rows
+# compare equal but serialise differently.  Resolution must treat every position of an expression on its own; the
+# respell stream builds function types (bare, nested, and as signatures of defined custom operations) whose input and
+# output rows are equal element by element under `==` but spelled differently at one or more positions, at any depth.
+def respell(t, rng, force=True):
+    """t with some unit sums respelled (compact <-> general with empty rows); at least one when force and possible"""
+    sites = []
+
+    def walk(x, path):
+        if isinstance(x, list):
+            if x and x[0] == "unit" and x[1] <= 3:
+                sites.append(path)
+            elif x and x[0] == "sum" and all(r == [] for r in x[1]) and len(x[1]) <= 3:
+                sites.append(path)
+            for i, y in enumerate(x):
+                walk(y, path + [i])
+        elif isinstance(x, dict):
+            for k2, y in x.items():
+                walk(y, path + [k2])
+    walk(t, [])
+    if not sites:
+        return t
+    chosen = [p for p in sites if rng.random() < 0.5]
+    if force and not chosen:
+        chosen = [rng.choice(sites)]
+    out = json.loads(json.dumps(t))
+    for p in sorted(chosen, key=len, reverse=True):
+        cur = out
+        for k2 in p[:-1]:
+            cur = cur[k2]
+        x = cur[p[-1]] if p else out
+        y = ["sum", [[] for _ in range(x[1])]] if x[0] == "unit" else ["unit", len(x[1])]
+        if p:
+            cur[p[-1]] = y
+        else:
+            out = y
+    return out
+
+
+def respell_stream(rng, tier):
+    allstd = sorted(std_exts())
+    for _ in range(60 if tier == "quick" else 700):
+        universe = rand_universe(rng)
+        g = Gen(rng, universe, [])
+        reg = [json.loads(json.dumps(e)) for e in universe] if rng.random() < 0.8 else cut_registry(rng, universe, [])[0]
+        row = []
+        for _ in range(rng.randint(1, 2)):
+            u = ["unit", rng.choice([0, 1, 2, 2, 3])]
+            row.append(rng.choice([lambda: u, lambda: ["sum", [[g.ty(1), u], [u]]], lambda: ["tuple", [u, g.ty(1)]],
+                                   lambda: ["func", [u], [g.ty(0)], []],
+                                   lambda: ["opaque", "nowhere", "U", [["type", u], ["seq", [["type", u]]]], "C"]])())
+        row2 = [respell(t, rng, force=(i == 0)) for i, t in enumerate(row)]
+        if rng.random() < 0.5:
+            row, row2 = row2, row
+        ft = ["func", row, row2, rng.sample(GEN_EXTS, rng.randint(0, 1))]
+        r = rng.random()
+        if r < 0.3:
+            yield {"kind": "ty", "via": "loaded", "reg": reg, "mode": "respell", "t": ft}
+        elif r < 0.45:
+            yield {"kind": "ty", "via": "loaded", "reg": reg, "mode": "respell",
+                   "t": rng.choice([["sum", [[ft, g.ty(0)]]], ["opaque", "nowhere", "U", [["type", ft]], "C"],
+                                    ["func", [ft], [], []]])}
+        elif r < 0.55:
+            yield {"kind": "arg", "via": "loaded", "reg": reg, "mode": "respell", "a": ["seq", [["type", ft], ["nat", 1]]]}
+        else:
+            ops_ = [(e["name"], d["name"]) for e in reg if "std" not in e for d in e["ops"]]
+            if not ops_:
+                reg = reg + [{"name": "ext.ops", "types": [], "ops": [{"name": "Id", "descr": "identity", "sig": "poly"}]}]
+                ops_ = [("ext.ops", "Id")]
+            e, n = rng.choice(ops_)
+            node = {"op": "custom", "ext": e, "name": n, "descr": rng.choice(["", "orig"]),
+                    "sig": {"in": row, "out": row2, "reqs": []}, "args": [["type", ft]] if rng.random() < 0.4 else []}
+            if rng.random() < 0.5:
+                yield {"kind": "hugr", "via": "loaded", "reg": reg, "mode": "respell", "nodes": [node]}
+            else:
+                yield {"kind": "whole", "via": "loaded", "reg": reg, "mode": "respell",
+                       "body": {"nodes": [node, {"op": "const", "val": ["fn", {"nodes": [node]}]}]}}
+
+
 # ------------------------------------------------------------------------------------------------ whole HUGRs
 # Second pass: `Hugr.resolve_extensions` observed on the whole HUGR (harness/hobs.py dump: root, node table with holes,
 # parent / children / metadata / port counts, links), with the HUGRs of function-valued constants dumped recursively,
@@ -1739,6 +1819,11 @@ class C11(fw.Prop):
              "body": {"nodes": [op_a, {"op": "const", "val": ["tuple", [["true"], ["some", [["fn", inner]]]]]}]}},
             {"kind": "whole", "via": "loaded", "reg": [ext_a, ext_ops],
              "body": {"nodes": [{"op": "const", "val": ["fn", {"nodes": [ident(t_in), {"op": "const", "val": ["left", [["fn", inner]]]}]}]}]}},
+            # seeded C11-f (results shared between positions that compare equal): Bool -> Bool with the output spelled
+            # as a general sum of two empty rows, bare and as the signature of a defined operation
+            {"kind": "ty", "via": "loaded", "reg": [ext_a], "t": ["func", [["unit", 2], t_in], [["sum", [[], []]], t_in], []]},
+            {"kind": "hugr", "via": "loaded", "reg": [ext_a],
+             "nodes": [{**op_a, "sig": {"in": [["sum", [[], []]]], "out": [["unit", 2]], "reqs": []}}]},
             # the frame: holes in the node table, a reused index, metadata, order links, a node with more out ports
             # than its signature
             {"kind": "whole", "via": "loaded", "reg": [ext_a, ext_ops], "holes": [0, 3], "refill": 1,
@@ -1802,6 +1887,8 @@ class C11(fw.Prop):
         cases += list(path_stream(rng, tier))
         # whole-HUGR stream (second pass), after the older streams
         cases += list(whole_stream(rng, tier))
+        # rows equal under `==` but spelled differently on the wire (seeded C11-f)
+        cases += list(respell_stream(rng, tier))
         return cases
 
     def std_sweep(self):
